@@ -17,7 +17,9 @@
    (roundtrip_exact_refuted in Props/C08.v).  What holds, and is proved here, is equality of the DATA:
      data_of x     the data of a plain tree, every table in STORAGE order      (= tree_dval ∘ abs_doc)
      text_data x   the data of a plain tree, in every standard table the key/value lines first
-                   (= tree_dval ∘ abs_doc_of); empty arrays of tables / placeholders are not data
+                   (= tree_dval ∘ abs_doc_of); empty arrays of tables / placeholders are not data; a table made of
+                   dotted keys is listed with the lines while a line is left in it (`is_line`), with the sections
+                   once only the headers below it mention it (Spec/WF.v's generalised dotted-table clause)
    `data_of (abs (doc_root d)) = text_data (abs t')`: the re-parsed text holds exactly the data of
    the edited tree, each standard table listed lines-first — the one reordering TOML imposes. *)
 From TV Require Import Base.Prelude Base.Utf8 Base.Winnow Gen.Consts Spec.Abnf Spec.Lex Spec.Defs Spec.DatetimeSpec Spec.Syntax Spec.WF.
@@ -54,16 +56,22 @@ Fixpoint pd_node (x : plain) : dval :=
 Definition data_of (x : plain) : list (bytes * dval) :=
   match x with PTab _ _ l => map (fun kv => match kv with (k, c) => (k, pd_node c) end) l | _ => [] end.
 
-(* lines first: what stands on a key/value line of a standard table ... *)
-Definition is_line (c : plain) : bool :=
+(* lines first: what stands on a key/value line of a standard table: values, and a table made of dotted keys as long
+   as a line is left in it (directly or through further dotted tables) ... *)
+Fixpoint is_line (c : plain) : bool :=
   match c with
-  | PScalar _ | PArr false _ | PTab true _ _ | PTab false true _ => true
+  | PScalar _ | PArr false _ | PTab true _ _ => true
+  | PTab false true l => (fix go (l : entries) : bool := match l with [] => false | (_, x) :: tl => is_line x || go tl end) l
   | _ => false
   end.
-(* ... and what has a header of its own *)
+Lemma is_line_dotted l : is_line (PTab false true l) = existsb (fun kv => is_line (snd kv)) l.
+Proof. cbn [is_line]. induction l as [|[k x] l IH]; [reflexivity|]. cbn [existsb snd]. rewrite IH. reflexivity. Qed.
+(* ... and what has a header of its own, or — a table made of dotted keys without a line left — is only mentioned by
+   the headers below it *)
 Definition is_sec (c : plain) : bool :=
   match c with
   | PTab false false _ | PArr true (_ :: _) => true
+  | PTab false true _ => negb (is_line c)
   | _ => false
   end.
 Fixpoint pd_text (x : plain) : dval :=
@@ -171,6 +179,16 @@ Qed.
 Lemma flat_map_map_in {A B C} (f : A -> B) (g : B -> list C) l : flat_map g (map f l) = flat_map (fun x => g (f x)) l.
 Proof. induction l as [|a l IH]; [reflexivity|]. cbn [map flat_map]. rewrite IH. reflexivity. Qed.
 
+(* a table stands on lines exactly when Spec/WF.v says it has a line of its own *)
+Lemma is_line_tbl : forall t, is_line (EditSpec.abs_tbl t) = t_dotted t && has_line t.
+Proof.
+  induction t as [items d im dt p sp IH] using tbl_sub_ind. cbn [EditSpec.abs_tbl t_dotted]. destruct dt; [|reflexivity]. cbn [andb].
+  rewrite is_line_dotted, WFTree.has_line_eq. cbn [t_items]. induction items as [|[k it] items IHi]; [reflexivity|]. inversion IH as [|? ? H1 H2]; subst.
+  cbn [map existsb snd]. rewrite (IHi H2). f_equal. destruct it as [|v|sub|ts asp]; try reflexivity.
+  - destruct v; reflexivity.
+  - exact H1.
+Qed.
+
 Lemma text_data_abs_doc_of :
   forall r, tree_dval (abs_doc_of r) = text_data (EditSpec.abs r).
 Proof.
@@ -197,11 +215,15 @@ Proof.
     { pose proof (node_res_sn_dn dval (dn_item (IValue v))) as R. destruct (dn_item (IValue v)); cbn [sn_dn] in *; split; try reflexivity; exact R. }
     destruct E as [E1 E2]. rewrite E1, E2. cbn [map]. rewrite node_dval_dn_item. cbn [absi].
     rewrite <- (proj1 pd_val_abs v). destruct v as [s r0 d|vals tr c d sp|items pre im dt d sp]; split; reflexivity.
-  - intros sub IH. unfold Pi. cbn [sn_item EditSpec.abs_item]. pose proof (Htd sub IH) as E.
-    destruct sub as [items d im dt p sp]. cbn [t_dotted]. cbn [EditSpec.abs_tbl] in *. destruct dt.
-    + cbn [line_part sec_part is_line is_sec]. rewrite node_res_SD. cbn [map node_dval].
-      change (map (fun kn : bytes * node dval => (fst kn, node_dval (snd kn))) (bres dval (sb_tbl (Tbl items d im true p sp))))
-        with (tree_dval (bres dval (sb_tbl (Tbl items d im true p sp)))). rewrite E. split; reflexivity.
+  - intros sub IH. unfold Pi. cbn [sn_item EditSpec.abs_item]. pose proof (Htd sub IH) as E. pose proof (is_line_tbl sub) as EL.
+    destruct sub as [items d im dt p sp]. cbn [t_dotted]. cbn [EditSpec.abs_tbl t_dotted andb] in *. destruct dt.
+    + cbn [is_sec]. rewrite EL. destruct (has_line (Tbl items d im true p sp)); cbn [negb line_part sec_part].
+      * rewrite node_res_SD. cbn [map node_dval].
+        change (map (fun kn : bytes * node dval => (fst kn, node_dval (snd kn))) (bres dval (sb_tbl (Tbl items d im true p sp))))
+          with (tree_dval (bres dval (sb_tbl (Tbl items d im true p sp)))). rewrite E. split; reflexivity.
+      * rewrite node_res_ST. cbn [map node_dval].
+        change (map (fun kn : bytes * node dval => (fst kn, node_dval (snd kn))) (bres dval (sb_tbl (Tbl items d im true p sp))))
+          with (tree_dval (bres dval (sb_tbl (Tbl items d im true p sp)))). rewrite E. split; reflexivity.
     + cbn [line_part sec_part is_line is_sec]. rewrite node_res_ST. cbn [map node_dval].
       change (map (fun kn : bytes * node dval => (fst kn, node_dval (snd kn))) (bres dval (sb_tbl (Tbl items d im false p sp))))
         with (tree_dval (bres dval (sb_tbl (Tbl items d im false p sp)))). rewrite E. split; reflexivity.
@@ -249,7 +271,7 @@ Lemma ls_sorted_parts : forall l,
 Proof.
   induction l as [|[k c] l [IH1 IH2]]; [split; intros _; [split|]; reflexivity|].
   unfold t_lines, t_secs in *. cbn [ls_sorted flat_map map]. destruct (is_line c) eqn:L.
-  - assert (S : is_sec c = false) by (destruct c as [|s|[|] ?|[|] [|] ?]; try reflexivity; discriminate). rewrite S.
+  - assert (S : is_sec c = false) by (destruct c as [|s|[|] ?|[|] [|] ?]; first [reflexivity|discriminate|cbn [is_sec]; rewrite L; reflexivity]). rewrite S.
     split; [intro H; discriminate|]. cbn [negb andb app]. intro H. f_equal. exact (IH2 H).
   - destruct (is_sec c) eqn:S; [|split; intro H; discriminate]. cbn [app].
     assert (G : ls_sorted true l = true ->
